@@ -14,6 +14,8 @@ from gencalc import (Case, run_impl, run_std, use_kinds, no_close, same_log, sam
 from gen_cases import draw_case, with_plan
 
 CORPUS = common.CORPUS
+# tools whose CPython counterpart performs its uses in the same order (so that the k-th use corresponds)
+STD_ORDER_TOOLS = set(ITER_TOOLS) | {"all", "any", "min", "max", "sum", "list", "tuple", "set", "dict", "reduce"}
 
 
 # ------------------------------------------------------------------ helpers
@@ -220,6 +222,11 @@ def oracle_values(case, r, s):
         return None
     ro, so = r["outcome"], s["outcome"]
     if case.tool.kind == "agg":
+        if case.name in STD_ORDER_TOOLS:
+            ci = [e for e in r["log"] if e[0] == "call"]
+            cs = [e for e in s["log"] if e[0] == "call"]
+            if not same_log(ci, cs):
+                return "user callables invoked differently: impl %r std %r" % (ci, cs)
         if ro[0] != so[0]:
             return "ending differs: impl %r std %r" % (ro[:2], so[:2])
         if ro[0] == "ok":
@@ -268,10 +275,6 @@ def std_prefix_run(case, nsteps):
     return {"outcome": out, "log": list(ctx.log)}
 
 
-# tools whose CPython counterpart performs its uses in the same order (so that the k-th use corresponds)
-STD_ORDER_TOOLS = set(ITER_TOOLS) | {"all", "any", "min", "max", "sum", "list", "tuple", "set", "dict", "reduce"}
-
-
 # ------------------------------------------------------------------ the checks
 def finish_with_model(rep, prop, pairs, oracle_fail, proofs_ok):
     """Common end: model correspondence, violation search / reporting."""
@@ -294,6 +297,47 @@ def finish_with_model(rep, prop, pairs, oracle_fail, proofs_ok):
         if not proofs_ok:
             rep.violation("proof-broken", {"broken": rep.notes.get("broken_file", "?"), "log": rep.notes.get("build_log_tail", "")[-1500:]}, no_input=True)
     rep.notes["model_mismatches"] = len(mism)
+
+
+def direct_probes(prop, rep):
+    """Witnesses outside the modelled item domain (strings, floats, one-shot plain iterators, initial=None):
+    evaluated directly against the CPython counterpart."""
+    import itertools
+    import asyncstdlib as a
+
+    def both(name, sig_, impl, std):
+        def ev(f):
+            try:
+                return ("ok", f())
+            except BaseException as e:  # noqa
+                return ("exn", type(e).__name__)
+        ri, rs = ev(impl), ev(std)
+        rep.count(("probe", name), True)
+        if ri != rs:
+            rep.violation(sig_, {"probe": name, "asyncstdlib": repr(ri), "stdlib": repr(rs)})
+
+    async def alist(it):
+        return [x async for x in it]
+    if prop == "C01":
+        both("accumulate(initial=None)", "accumulate:initial=None-object",
+             lambda: G.drive(alist(a.accumulate([1, 2, 3], initial=None))), lambda: list(itertools.accumulate([1, 2, 3], initial=None)))
+        both("accumulate(initial=0)", "accumulate:initial",
+             lambda: G.drive(alist(a.accumulate([1, 2, 3], initial=0))), lambda: list(itertools.accumulate([1, 2, 3], initial=0)))
+    if prop == "C02":
+        both("sum floats", "sum:float-compensation", lambda: G.drive(a.sum([0.1] * 10)), lambda: builtins.sum([0.1] * 10))
+        both("sum str start", "sum:str-start", lambda: G.drive(a.sum(["a", "b"], "")), lambda: builtins.sum(["a", "b"], ""))
+        both("sum bytes start", "sum:str-start", lambda: G.drive(a.sum([b"a"], b"")), lambda: builtins.sum([b"a"], b""))
+        both("sum list start", "sum:list-start", lambda: G.drive(a.sum([[1], [2]], [])), lambda: builtins.sum([[1], [2]], []))
+        both("sorted one-shot unorderable", "sorted:one-shot", lambda: G.drive(a.sorted(iter([1, "a"]))), lambda: builtins.sorted(iter([1, "a"])))
+        both("sorted one-shot", "sorted:one-shot", lambda: G.drive(a.sorted(iter([3, 1, 2]))), lambda: builtins.sorted(iter([3, 1, 2])))
+        both("sorted list unorderable", "sorted:one-shot", lambda: G.drive(a.sorted([1, "a"])), lambda: builtins.sorted([1, "a"]))
+        both("min mixed numeric", "min:mixed-numeric", lambda: G.drive(a.min([2, 1.0, 1, True])), lambda: builtins.min([2, 1.0, 1, True]))
+        both("max mixed numeric", "max:mixed-numeric", lambda: G.drive(a.max([1, 2.0, 2, 1.5])), lambda: builtins.max([1, 2.0, 2, 1.5]))
+        both("max unorderable", "max:unorderable", lambda: G.drive(a.max([1, "a"])), lambda: builtins.max([1, "a"]))
+        both("set unhashable", "set:unhashable", lambda: G.drive(a.set([1, [2]])), lambda: builtins.set([1, [2]]))
+        both("dict pairs", "dict:pairs", lambda: G.drive(a.dict([[1, 2], (3, 4)])), lambda: builtins.dict([[1, 2], (3, 4)]))
+        both("reduce empty", "reduce:empty", lambda: G.drive(a.reduce(lambda x, y: x + y, [])), lambda: __import__("functools").reduce(lambda x, y: x + y, []))
+        both("min empty", "min:empty", lambda: G.drive(a.min([])), lambda: builtins.min([]))
 
 
 def check_values(prop, tier, seed, tools):
@@ -325,6 +369,7 @@ def check_values(prop, tier, seed, tools):
             small = shrink_case(c, lambda cc: oracle_values(cc, run_impl(cc), std_run_for(cc, run_impl(cc))) is not None)
             rep.violation(sig(c, param_sig(c)), {"case": encode_case(small), "why": why, "replay_note": "run_impl vs run_std on this case"})
     rep.notes["input_distribution"] = dist
+    direct_probes(prop, rep)
     spec_stage(rep, prop, std_pairs)
     finish_with_model(rep, prop, pairs, fails, proofs_ok)
     return rep.finish()
@@ -433,6 +478,9 @@ def check_faults(prop, tier, seed):
         if prop == "C04":
             plans += [(k, ("GenExit",)) for k, kind in enumerate(uk) if kind == "yield"]
             plans += [(k, ("inj", 7, False)) for k, kind in enumerate(uk) if kind in ("pull", "call", "close", "yield")]
+            if r0.get("unraisable"):
+                fails += 1
+                rep.violation(sig(c, "unraisable"), {"case": encode_case(c), "why": "exception in an un-awaited finaliser: %r" % (r0["unraisable"][:2],)})
             if released_problem(c, r0):
                 fails += 1
                 rep.violation(sig(c, "leak"), {"case": encode_case(c), "why": "source not released after exhaustion", "states": r0["states"]})
@@ -495,6 +543,8 @@ def released_problem(case, run):
 
 
 def fault_oracle(prop, c, cp, rp, uk):
+    if rp.get("unraisable"):
+        return ("unraisable", "an exception was raised in an un-awaited finaliser during the run: %r" % (rp["unraisable"][:2],))
     k, kind = cp.plan
     out = rp["outcome"]
     fired = rp["ctx"].fired
